@@ -152,6 +152,10 @@ func c20Run(c *run.C, capacity int) {
 	}
 	c.Begin(map[string]interface{}{"capacity": capacity, "type": t.String(), "keys": alphabet, "docs": ndocs, "path": path, "reenable_before_doc": reenable, "streams": streams})
 
+	resetBefore := make([]bool, ndocs)
+	for i := range resetBefore {
+		resetBefore[i] = r.P(1, 3)
+	}
 	reuseArena := cd != nil && r.P(1, 3)
 	if reuseArena {
 		c.Observe("sequences_from_one_reused_read_buffer", 1)
@@ -191,6 +195,9 @@ func c20Run(c *run.C, capacity int) {
 			tgt := reflect.New(t)
 			var uerr error
 			ok = c.Guard(fmt.Sprintf("unfold.cache=%v", withCache), func() {
+				if d > 0 && resetBefore[d] {
+					u.Reset() // the documented way to prepare an unfolder for its next target
+				}
 				if uerr = u.SetTarget(tgt.Interface()); uerr != nil {
 					return
 				}
